@@ -151,7 +151,7 @@ func indepRuns(thorough bool) []hrun {
 	}
 	r = append(r, hrun{Harness: "ParamIndependent", Params: P("D", 1, "FORM", 0)})
 	if thorough {
-		r = append(r, hrun{Harness: "ParamIndependent", Params: P("D", 2, "FORM", 0)})
+		r = append(r, hrun{Harness: "ParamIndependent", Params: P("D", 2, "FORM", 0), Seconds: 600})
 	}
 	return r
 }
